@@ -343,6 +343,46 @@ def kind_of(val):
     return "object"
 
 
+class DefaultsHolder(object):
+    """the default values of a function's parameters live as long as the function: `getattr(h, "d<i>")` is
+    `fn.__defaults__[i]`, `setattr` replaces it (so a mutable default can be traced like any other registry)"""
+
+    def __init__(self, fn):
+        object.__setattr__(self, "_fn", fn)
+
+    def __getattr__(self, name):
+        fn = object.__getattribute__(self, "_fn")
+        if name.startswith("d") and name[1:].isdigit():
+            return fn.__defaults__[int(name[1:])]
+        if name.startswith("k_"):
+            return fn.__kwdefaults__[name[2:]]
+        raise AttributeError(name)
+
+    def __setattr__(self, name, value):
+        fn = object.__getattribute__(self, "_fn")
+        if name.startswith("d") and name[1:].isdigit():
+            d = list(fn.__defaults__)
+            d[int(name[1:])] = value
+            fn.__defaults__ = tuple(d)
+        else:
+            fn.__kwdefaults__[name[2:]] = value
+
+
+def function_defaults(regs, prefix, fn):
+    """mutable default argument values are process-wide state too"""
+    if not isinstance(fn, types.FunctionType):
+        return
+    h = None
+    for i, v in enumerate(fn.__defaults__ or ()):
+        if not deep_immutable(v):
+            h = h or DefaultsHolder(fn)
+            regs["%s.<default %d>" % (prefix, i)] = (h, "d%d" % i, None)
+    for k, v in (fn.__kwdefaults__ or {}).items():
+        if not deep_immutable(v):
+            h = h or DefaultsHolder(fn)
+            regs["%s.<default %s>" % (prefix, k)] = (h, "k_" + k, None)
+
+
 def enumerate_registries():
     """every module-level and class-level attribute of shroud.* that is not deeply immutable, plus every name some
     function rebinds through `global`.  Anything whose kind cannot be determined raises (no silent skipping)."""
@@ -357,10 +397,15 @@ def enumerate_registries():
         for name, val in list(vars(mod).items()):
             if name.startswith("__"):
                 continue
+            if isinstance(val, types.FunctionType) and val.__module__ == mod.__name__:
+                function_defaults(regs, "%s.%s" % (m.name, name), val)
             if isinstance(val, MUTABLE):
                 regs["%s.%s" % (m.name, name)] = (mod, name, None)
             elif isinstance(val, type) and val.__module__ == mod.__name__:
                 for an, av in list(vars(val).items()):
+                    f = av.__func__ if isinstance(av, (staticmethod, classmethod)) else av
+                    if isinstance(f, types.FunctionType):
+                        function_defaults(regs, "%s.%s.%s" % (m.name, name, an), f)
                     if an.startswith("__"):
                         continue
                     if isinstance(av, MUTABLE):
